@@ -951,6 +951,7 @@ def run(ctx: Ctx) -> None:
 
 # ---------------------------------------------------------------------------
 WITNESSES = [
+    {"name": "seeded-C02-9", "file": "algos/design_space.py", "old": "        \"\"\"\n        return self.unnormalize_vect(vector, no_check=no_check, out=out)\n\n", "new": "        \"\"\"\n        return self.unnormalize_vect(vector, no_check, out=out)\n\n", "expect": "2.8", "note": "untransform_vect passes no_check positionally, so it lands on minus_lb"},
     {"name": "gradient-rounded-like-a-point", "file": DSF, "old": "        if minus_lb and not self.__no_integer:\n            self.round_vect(out, copy=False)", "new": "        if not self.__no_integer:\n            self.round_vect(out, copy=False)", "expect": "2.7"},
     {"name": "out-buffer-rebound-to-the-input", "file": DSF, "old": "        else:\n            out[...] = x_vect\n\n        # Unnormalize the relevant components:", "new": "        else:\n            out *= 0\n            out = x_vect\n\n        # Unnormalize the relevant components:", "expect": "2.9"},
     {"name": "normalize-in-place-on-the-input", "file": DSF, "old": "        if out is None:\n            out = x_vect.copy()\n        else:\n            out[...] = x_vect\n\n        # Normalize the relevant components:", "new": "        out = x_vect\n\n        # Normalize the relevant components:", "expect": "2.9"},
